@@ -84,6 +84,19 @@ def res(fn):
 
 
 def op_process(c):
+    if c.get('via') == 'file':      # the other entry point: load_file(path).process(), also with verbose output
+        import tempfile, os, io, contextlib
+
+        def go():
+            fd, path = tempfile.mkstemp(suffix='.json')
+            with os.fdopen(fd, 'w') as f:
+                json.dump(c['doc'], f)
+            try:
+                with contextlib.redirect_stdout(io.StringIO()):
+                    return u_fc(DznJsonAst(verbose=bool(c.get('verbose'))).load_file(path).process())
+            finally:
+                os.unlink(path)
+        return res(go)
     return res(lambda: u_fc(DznJsonAst(json.dumps(c['doc'])).process()))
 
 
@@ -109,6 +122,12 @@ def op_history(c):
                 assert r is insts[op[1]]
             finally:
                 os.unlink(path)
+            out.append(None)
+        elif op[0] == 'edit':
+            # the caller edits the decoded document its parser holds (public property `ast`): keep the first element only
+            a = insts[op[1]].ast
+            if isinstance(a, dict) and isinstance(a.get('elements'), list):
+                del a['elements'][1:]
             out.append(None)
         else:
             try:
